@@ -18,6 +18,7 @@ import (
 	"encoding/json"
 	"fmt"
 	"strings"
+	. "verifharness/hlib"
 
 	zed "github.com/brimdata/super"
 	"github.com/brimdata/super/compiler"
@@ -28,7 +29,7 @@ import (
 	"github.com/brimdata/super/runtime"
 )
 
-func init() { register("C16", runC16) }
+func main() { Main("C16", runC16) }
 
 // ---- predicate trees ----------------------------------------------------------------
 
@@ -93,7 +94,7 @@ func (p *c16Pred) children() []*c16Pred {
 	return out
 }
 
-func (c *Ctx) c16GenPred(depth int, lits []string) *c16Pred {
+func c16GenPred(c *Ctx, depth int, lits []string) *c16Pred {
 	r := c.Rng
 	if depth == 0 || r.Intn(3) == 0 {
 		if r.Intn(6) == 0 {
@@ -103,11 +104,11 @@ func (c *Ctx) c16GenPred(depth int, lits []string) *c16Pred {
 	}
 	switch r.Intn(5) {
 	case 0:
-		return &c16Pred{Kind: "not", A: c.c16GenPred(depth-1, lits)}
+		return &c16Pred{Kind: "not", A: c16GenPred(c, depth-1, lits)}
 	case 1, 2:
-		return &c16Pred{Kind: "and", A: c.c16GenPred(depth-1, lits), B: c.c16GenPred(depth-1, lits)}
+		return &c16Pred{Kind: "and", A: c16GenPred(c, depth-1, lits), B: c16GenPred(c, depth-1, lits)}
 	default:
-		return &c16Pred{Kind: "or", A: c.c16GenPred(depth-1, lits), B: c.c16GenPred(depth-1, lits)}
+		return &c16Pred{Kind: "or", A: c16GenPred(c, depth-1, lits), B: c16GenPred(c, depth-1, lits)}
 	}
 }
 
@@ -244,7 +245,7 @@ func findKeyPruner(seq dag.Seq) dag.Expr {
 	return nil
 }
 
-func (c *Ctx) c16Struct(l *TLake, pool string, preds []*c16Pred) {
+func c16Struct(c *Ctx, l *TLake, pool string, preds []*c16Pred) {
 	var reqs []string
 	var real []string
 	var kept []*c16Pred
@@ -295,7 +296,7 @@ func c16Rec(key string, id int) string {
 }
 
 // c16RangePool loads one object per pair lo<=hi of domain (index order), each in its own load.
-func (c *Ctx) c16RangePool(l *TLake, name string, desc bool, domain []string) error {
+func c16RangePool(c *Ctx, l *TLake, name string, desc bool, domain []string) error {
 	pool, err := l.CreatePool(name, "k", desc, 0, 0)
 	if err != nil {
 		return err
@@ -332,30 +333,11 @@ func c16Compare(l *TLake, pool string, full []string, predText string) (string, 
 		}
 		return "", false
 	}
-	if sameMultiset(pruned, ref) {
+	if SameMultiset(pruned, ref) {
 		return "", false
 	}
 	return fmt.Sprintf("pruned query returned %d values, full scan + filter %d; missing=%v extra=%v",
-		len(pruned), len(ref), msDiff(ref, pruned, 3), msDiff(pruned, ref, 3)), true
-}
-
-// msDiff: up to n elements of a not in b (as multisets).
-func msDiff(a, b []string, n int) []string {
-	cnt := map[string]int{}
-	for _, x := range b {
-		cnt[x]++
-	}
-	var out []string
-	for _, x := range a {
-		if cnt[x] > 0 {
-			cnt[x]--
-			continue
-		}
-		if len(out) < n {
-			out = append(out, x)
-		}
-	}
-	return out
+		len(pruned), len(ref), MsDiff(ref, pruned, 3), MsDiff(pruned, ref, 3)), true
 }
 
 // c16Shrink finds a smallest failing sub-predicate.
@@ -368,7 +350,7 @@ func c16Shrink(p *c16Pred, fails func(*c16Pred) bool) *c16Pred {
 	return p
 }
 
-func (c *Ctx) c16Oracle(check string, l *TLake, pool string, desc bool, preds []*c16Pred) {
+func c16Oracle(c *Ctx, check string, l *TLake, pool string, desc bool, preds []*c16Pred) {
 	full, err := l.Query("from " + pool)
 	if err != nil {
 		c.Fail("oracle", "C16:"+check+":scan-error", err.Error(), map[string]any{"check": check})
@@ -379,7 +361,7 @@ func (c *Ctx) c16Oracle(check string, l *TLake, pool string, desc bool, preds []
 		bad  bool
 	}
 	results := make([]res, len(preds))
-	parallelDo(len(preds), 12, func(i int) {
+	ParallelDo(len(preds), 12, func(i int) {
 		d, b := c16Compare(l, pool, full, preds[i].Text("k"))
 		results[i] = res{d, b}
 	})
@@ -405,7 +387,7 @@ func (c *Ctx) c16Oracle(check string, l *TLake, pool string, desc bool, preds []
 	}
 }
 
-func (c *Ctx) c16DelWhere(l *TLake, n int, lits []string) {
+func c16DelWhere(c *Ctx, l *TLake, n int, lits []string) {
 	for i := 0; i < n; i++ {
 		desc := c.Rng.Intn(2) == 0
 		name := fmt.Sprintf("dw%d", i)
@@ -433,7 +415,7 @@ func (c *Ctx) c16DelWhere(l *TLake, n int, lits []string) {
 				return
 			}
 		}
-		p := c.c16GenPred(2, lits)
+		p := c16GenPred(c, 2, lits)
 		text := p.Text("k")
 		before, _ := l.Query("from " + name)
 		matched, err := QueryZSON("where "+text, strings.Join(before, "\n"))
@@ -450,24 +432,22 @@ func (c *Ctx) c16DelWhere(l *TLake, n int, lits []string) {
 				map[string]any{"check": "delwhere", "desc": desc, "stride": stride, "loads": loads, "pred": p})
 			continue
 		}
-		want := msDiffAll(before, matched)
+		want := MsDiffAll(before, matched)
 		if derr != nil {
 			// an empty match is reported as an error by the lake ("empty transaction");
 			// the pool must then be unchanged.
 			want = before
 			c.Stat("delwhere:error")
 		}
-		if !sameMultiset(after, want) {
+		if !SameMultiset(after, want) {
 			c.Fail("oracle", "C16:delwhere:"+p.Shape(),
-				fmt.Sprintf("delete where %s (desc=%v stride=%d, err=%v) left %d values, expected %d; missing=%v extra=%v", text, desc, stride, derr, len(after), len(want), msDiff(want, after, 3), msDiff(after, want, 3)),
+				fmt.Sprintf("delete where %s (desc=%v stride=%d, err=%v) left %d values, expected %d; missing=%v extra=%v", text, desc, stride, derr, len(after), len(want), MsDiff(want, after, 3), MsDiff(after, want, 3)),
 				map[string]any{"check": "delwhere", "desc": desc, "stride": stride, "loads": loads, "pred": p})
 		}
 	}
 }
 
-func msDiffAll(a, b []string) []string { return msDiff(a, b, len(a)) }
-
-func (c *Ctx) c16SeekPool(l *TLake, name string, desc bool, stride, n int) error {
+func c16SeekPool(c *Ctx, l *TLake, name string, desc bool, stride, n int) error {
 	pool, err := l.CreatePool(name, "k", desc, stride, 0)
 	if err != nil {
 		return err
@@ -487,7 +467,7 @@ func (c *Ctx) c16SeekPool(l *TLake, name string, desc bool, stride, n int) error
 	return nil
 }
 
-func (c *Ctx) c16AllAtoms(lits []string) []*c16Pred {
+func c16AllAtoms(c *Ctx, lits []string) []*c16Pred {
 	var out []*c16Pred
 	for _, op := range c16Ops {
 		for _, kl := range []bool{true, false} {
@@ -509,15 +489,15 @@ func runC16(c *Ctx) {
 	defer l.Close()
 
 	if c.Replay != nil {
-		c.c16Replay(l)
+		c16Replay(c, l)
 		return
 	}
 
 	domain := c16Domain
-	atoms := c.c16AllAtoms(c16Lits)
+	atoms := c16AllAtoms(c, c16Lits)
 	var trees []*c16Pred
 	for i := 0; i < c.N(150, 3000); i++ {
-		trees = append(trees, c.c16GenPred(1+c.Rng.Intn(3), c16Lits))
+		trees = append(trees, c16GenPred(c, 1+c.Rng.Intn(3), c16Lits))
 	}
 	for _, p := range trees[:3] {
 		c.Sample(map[string]any{"pred": p.Text("k")})
@@ -527,40 +507,40 @@ func runC16(c *Ctx) {
 		if _, err := l.CreatePool("sp", "k", false, 0, 0); err != nil {
 			panic(err)
 		}
-		c.c16Struct(l, "sp", append(append([]*c16Pred{}, atoms...), trees...))
+		c16Struct(c, l, "sp", append(append([]*c16Pred{}, atoms...), trees...))
 	}
 	if c.Want("ranges") {
 		for _, desc := range []bool{false, true} {
 			name := fmt.Sprintf("rp%v", desc)
-			if err := c.c16RangePool(l, name, desc, domain); err != nil {
+			if err := c16RangePool(c, l, name, desc, domain); err != nil {
 				c.Fail("oracle", "C16:ranges:setup", err.Error(), nil)
 				continue
 			}
 			preds := append([]*c16Pred{}, atoms...)
 			preds = append(preds, trees[:c.N(60, len(trees))]...)
-			c.c16Oracle("ranges", l, name, desc, preds)
+			c16Oracle(c, "ranges", l, name, desc, preds)
 		}
 	}
 	if c.Want("seek") {
 		for i, desc := range []bool{false, true} {
 			name := fmt.Sprintf("kp%d", i)
 			stride := 1 + c.Rng.Intn(12)
-			if err := c.c16SeekPool(l, name, desc, stride, c.N(60, 300)); err != nil {
+			if err := c16SeekPool(c, l, name, desc, stride, c.N(60, 300)); err != nil {
 				c.Fail("oracle", "C16:seek:setup", err.Error(), nil)
 				continue
 			}
 			preds := append([]*c16Pred{}, atoms...)
 			preds = append(preds, trees[:c.N(40, len(trees)/2)]...)
-			c.c16Oracle("seek", l, name, desc, preds)
+			c16Oracle(c, "seek", l, name, desc, preds)
 		}
 	}
 	if c.Want("delwhere") {
-		c.c16DelWhere(l, c.N(40, 600), c16Lits)
+		c16DelWhere(c, l, c.N(40, 600), c16Lits)
 	}
 }
 
 // c16Replay re-runs a recorded failing case.
-func (c *Ctx) c16Replay(l *TLake) {
+func c16Replay(c *Ctx, l *TLake) {
 	var r struct {
 		Check      string   `json:"check"`
 		Desc       bool     `json:"desc"`
@@ -576,7 +556,7 @@ func (c *Ctx) c16Replay(l *TLake) {
 	switch r.Check {
 	case "struct":
 		l.CreatePool("sp", "k", false, 0, 0)
-		c.c16Struct(l, "sp", []*c16Pred{r.Pred})
+		c16Struct(c, l, "sp", []*c16Pred{r.Pred})
 	case "delwhere":
 		pool, _ := l.CreatePool("dw", "k", r.Desc, r.Stride, 0)
 		for _, t := range r.Loads {
@@ -586,12 +566,12 @@ func (c *Ctx) c16Replay(l *TLake) {
 		matched, _ := QueryZSON("where "+r.Pred.Text("k"), strings.Join(before, "\n"))
 		_, derr := l.DeleteWhere(pool, "main", r.Pred.Text("k"))
 		after, _ := l.Query("from dw")
-		want := msDiffAll(before, matched)
+		want := MsDiffAll(before, matched)
 		if derr != nil {
 			want = before
 		}
 		c.Eval("replay")
-		if !sameMultiset(after, want) {
+		if !SameMultiset(after, want) {
 			c.Fail("oracle", "C16:delwhere:"+r.Pred.Shape(), "replayed", r)
 		}
 	default:
@@ -604,6 +584,6 @@ func (c *Ctx) c16Replay(l *TLake) {
 			}
 			l.LoadZSON(pool, "main", strings.Join(r.PoolValues[i:j], " "))
 		}
-		c.c16Oracle("ranges", l, "rp", r.Desc, []*c16Pred{r.Pred})
+		c16Oracle(c, "ranges", l, "rp", r.Desc, []*c16Pred{r.Pred})
 	}
 }
